@@ -97,9 +97,11 @@ def cases(tier, seed):
     for i in range(800 if tier == 'quick' else 40000):
         add('/' + ''.join(rng.choice(reparts) for _ in range(rng.randint(0, 6))) + rng.choice(['/', '/i', '/ms', '/x', '', '/ i']), ('regex',))
     sigparts = list('nsblaofjx') + ['(', ')', '<', '>', '?', '+', '-', ':', '(ns)', 'a<n>', 'q', ' ']
-    for i in range(800 if tier == 'quick' else 40000):
+    for i in range(2500 if tier == 'quick' else 120000):
         k = rng.randint(0, 3)
-        add('function(%s)<%s>{1}' % (', '.join('$p%d' % j for j in range(k)), ''.join(rng.choice(sigparts) for _ in range(rng.randint(0, 5)))), ('signatures',))
+        # mostly signature characters, sometimes any token of the language (they reach the signature scanner as whole tokens: <= >= "<" ~> ...)
+        body = ''.join((rng.choice(sigparts) if rng.random() < 0.8 else rng.choice(SYMS + ['"<"', "'>'", '"<<"', '<=', '>=', '<=', '>=', '`<`', '/</'])) for _ in range(rng.randint(0, 6)))
+        add('%s(%s)<%s%s{%s}' % (rng.choice(['function', 'function', 'λ']), ', '.join('$p%d' % j for j in range(k)), body, rng.choice(['>', '>', '>', '', '>>']), rng.choice(['1', '$p0', ''])), ('signatures',))
     return out
 
 def run(tier, seed, replay=None):
